@@ -458,6 +458,10 @@ _R = 'aggregates/rolling_stats.py'
 _U = 'aggregates/utils.py'
 _T = 'aggregates/retrieval.py'
 VARIANTS = [
+    B('result-normalises-in-place', _R,
+      '    return numerator / denominator\n', '    numerator /= denominator\n    return numerator\n', 'R-C11-3'),
+    OK('result-divides-into-fresh-local', _R,
+       '    return numerator / denominator\n', '    ratio = numerator / denominator\n    return ratio\n'),
     B('histogram-merge-casts-to-receiver-dtype', _R, '    self._hist = self._hist + hist\n',
       '    self._hist = (self._hist + hist).astype(self._hist.dtype, copy=False)\n', 'R-C11-6'),
     OK('histogram-merge-widens', _R, '    self._hist = self._hist + hist\n',
